@@ -179,7 +179,7 @@ json gv(const char* what, F f)
     auto oc = vh::guarded(what, [&] { v = f(); });
     if (!oc.ok)
         return {{"throw", oc.ex}, {"std", oc.std_exc}};
-    return v;
+    return {{"v", v}};   // always a record, so that TLC can tell a value from a thrown exception by its fields
 }
 
 json columns(v2::track_table& t, int64_t id)
